@@ -15,7 +15,7 @@ R == Rec[l]
 
 TraceInit == Init /\ l = 2
 TrReset == IsEvent("reset") /\ mem' = {} /\ added' = {} /\ disk' = {} /\ pend' = [t \in Threads |-> None]
-           /\ cols' = <<[key |-> 0, shards |-> <<>>, table |-> {}]>> /\ byKey' = (0 :> 1) /\ nextId' = 1
+           /\ cols' = <<[key |-> 0, shards |-> <<>>, table |-> {}]>> /\ byKey' = (0 :> 1) /\ indexed' = 0 /\ nextId' = 1
 
 TrAdd == IsEvent("SmAdd") /\ AddCas(R.actor, R.x)
 \* the shard a flush wrote holds exactly the memory shard's xorbs; the harness numbers flushed shards in event order
@@ -29,6 +29,8 @@ TrRegister ==
   \* where the code put the shard: its key's collection, at the code's index, with the code's collection count
   /\ R.key \in DOMAIN byKey' /\ byKey'[R.key] = R.col + 1 /\ Len(cols') = R.ncols
   /\ \E j \in 1..Len(cols'[R.col + 1].shards) : cols'[R.col + 1].shards[j].id = R.shard
+  \* the counter the code compares with CHUNK_INDEX_TABLE_MAX_SIZE is the number of table entries
+  /\ ("indexed" \in DOMAIN R) => (R.indexed = indexed')
 \* a query for one chunk, answered against the state at that moment
 TrQuery ==
   /\ IsEvent("SmQuery")
